@@ -5,13 +5,15 @@ Space   : (a) every labelled graph on n <= 3 (quick) / n <= 4 (thorough) points:
           names from {"zeta", "alpha", "mid", "βeta"} in two opposite orders (variant A: 2-D, main constructor;
           variant B: reversed names, 3-D, init_from_edges) so that for ANY process hash seed one of the two
           orders disagrees with the iteration order of a python set of the names (see graph_roots for the
-          exact root lists of each tier);
+          exact root lists of each tier); variant C uses the nested names "brow", "eyebrow", "eye" (a bare-string
+          request must not be read as a substring test);
           (b) all 33 index-based labellers exported by menpo.landmark.labels, input sizes 1..120, given as
           ndarray / PointCloud / LabelledPointUndirectedGraph, 2-D and 3-D, pairwise distinct points.
 Ops     : with_labels (every non-empty label subset: original order, every permuted order, bare string),
           without_labels (every subset incl. all, reversed request, bare string), get_label, add_label (new name
           and every existing name x every index subset; list and ndarray), remove_label, each also with an
-          unknown label; thorough chains them (depth 2 on every variant A root with n <= 3).
+          unknown label; read-derive-read chains (read a label, derive a group by copy / add_label / remove_label /
+          affine apply / in-place point edit, read every label of both again); thorough chains them (depth 2 on every variant A root with n <= 3).
           Labellers: every size (exactly one accepted, every other -> LabellingError), pure re-indexing, every
           output point labelled, commutation with an affine and a non-linear map, mapping dictionary, input
           untouched, and the `labeller` convenience wrapper.
@@ -87,7 +89,12 @@ def families(n, kmax=KMAX):
     return out
 
 
+NESTED = ("brow", "eyebrow", "eye")  # variant C: names that are substrings of one another, not alphabetical
+
+
 def names_for(k, variant):
+    if variant == "C":
+        return tuple(NESTED[:k])
     base = NAMES[:k]
     return tuple(base) if variant == "A" else tuple(reversed(base))
 
@@ -335,6 +342,8 @@ class C15(Check):
                 if len(fam) >= 2:
                     for eb in ebits_b:
                         out.append(("g", n, fam, eb, "B", 1))
+                    if n <= 3:
+                        out.append(("g", n, fam, path, "C", 1))
         return out
 
     def roots(self):
@@ -356,14 +365,14 @@ class C15(Check):
         from menpo.shape import LabelledPointUndirectedGraph
 
         _, n, fam, eb, var, maxdepth = root
-        d = 2 if var == "A" else 3
+        d = 3 if var == "B" else 2
         pts = generic_points(n, d, self.seed, salt=("c15", var))
         pairs = _pairs(n)
         edges = [p for k, p in enumerate(pairs) if (eb >> k) & 1]
         names = names_for(len(fam), var)
         masks = [tuple(bool((m >> i) & 1) for i in range(n)) for m in fam]
         l2m = OrderedDict((nm, np.array(m, dtype=bool)) for nm, m in zip(names, masks))
-        if var == "A":
+        if var != "B":
             adj = np.zeros((n, n), dtype=int)
             for i, j in edges:
                 adj[i, j] = adj[j, i] = 1
@@ -371,7 +380,10 @@ class C15(Check):
         else:
             g = LabelledPointUndirectedGraph.init_from_edges(pts.copy(), np.array(edges, dtype=int).reshape(-1, 2), l2m)
         model = Model(pts, edges, list(zip(names, masks)))
-        return {"kind": "g", "g": g, "model": model, "maxdepth": int(maxdepth)}
+        # read-derive-read chains (see _chain_step): quick on the path roots of variants A and C, thorough on every
+        # variant A root with n <= 3 and the variant C roots
+        chain = n <= 3 and var in ("A", "C") and (eb == _path_bits(n) or (self.tier != "quick" and var == "A"))
+        return {"kind": "g", "g": g, "model": model, "maxdepth": int(maxdepth), "chain": chain}
 
     def _build_labeller(self, root):
         import menpo.landmark.labels as L
@@ -424,9 +436,9 @@ class C15(Check):
             return self._lab_ops(st) if level == 0 else []
         if level >= st["maxdepth"]:
             return []
-        return self.graph_ops(st["model"], "T" if level + 1 >= st["maxdepth"] else "N", rich=(level == 0))
+        return self.graph_ops(st["model"], "T" if level + 1 >= st["maxdepth"] else "N", rich=(level == 0), chain=st["chain"] and level == 0 and not self.sweep_mode)
 
-    def graph_ops(self, model, T, rich=True):
+    def graph_ops(self, model, T, rich=True, chain=False):
         names = model.names()
         n = model.n
         k = len(names)
@@ -467,6 +479,21 @@ class C15(Check):
         for nm in names:
             out.append(("remove", nm, T))
         out.append(("remove-unknown", UNKNOWN, "T"))
+        if chain:
+            # read label L first, derive a second group, read everything again (one composite transition each)
+            for L in names:
+                out.append(("chain", L, "copy", (), "T"))
+                for idx in idxsets:
+                    mask = tuple(i in idx for i in range(n))
+                    if model.covered([(l, mask if l == L else m) for l, m in model.labels]):
+                        out.append(("chain", L, "add-existing", idx, "T"))
+                for idx in sorted(set([(0,), tuple(range(n))])):
+                    out.append(("chain", L, "add-new", idx, "T"))
+                for other in names:
+                    if other != L and model.covered([(l, m) for l, m in model.labels if l != other]):
+                        out.append(("chain", L, "remove", other, "T"))
+                out.append(("chain", L, "affine", (), "T"))
+                out.append(("chain", L, "inplace", (), "T"))
         return out
 
     def _lab_ops(self, st):
@@ -491,12 +518,102 @@ class C15(Check):
     def apply(self, st, op, verify=True):
         if st["kind"] == "lab":
             return self._lab_apply(st, op, verify)
+        if op[0] == "chain":
+            self.last_digest = None
+            return self._chain_step(st, op, verify)
         fails, new_model, new_live, digest = self._graph_step(st, op, verify)
         self.last_digest = digest
         if verify and not fails or not verify:
             if op[-1] == "N" and new_live is not None and new_model is not None and new_model.labels is not None:
                 st["g"], st["model"] = new_live, new_model
         return fails
+
+    # ------------------------------------------------------------------------------------------ read-derive-read
+    def _reads(self, where, stage, g, model, labels):
+        """get_label / with_labels / without_labels (bare string) of every label in `labels`, against the model."""
+        from menpo.shape import LabelledPointUndirectedGraph, PointUndirectedGraph
+
+        fails = []
+        names = model.names()
+        for l in labels:
+            sel = model.select([l])
+            rest = [x for x in names if x != l]
+            plan = [
+                ("get", lambda: g.get_label(l), Model(sel.pts, sel.edges, None), PointUndirectedGraph),
+                ("with", lambda: g.with_labels([l]), sel, LabelledPointUndirectedGraph),
+                ("without", lambda: g.without_labels(l), model.select(rest) if rest else None, LabelledPointUndirectedGraph),
+            ]
+            for nm, fn, exp, cls in plan:
+                try:
+                    r, exc = fn(), None
+                except Exception as e:  # noqa - judged below
+                    r, exc = None, e
+                self.note("chain-read:%s-%s" % (stage, nm))
+                if exp is None or exp.n == 0:
+                    if exc is None and exp is None:
+                        fails.append(Failure(where, "%s-%s-not-refused" % (stage, nm), "label %r: nothing left, yet a value was returned" % l))
+                    elif exc is None:
+                        fails.extend(compare(where, r, exp, cls, prefix="%s-%s-" % (stage, nm)))
+                    continue
+                if exc is not None:
+                    fails.append(Failure(where, "%s-%s-raised" % (stage, nm), "label %r on labels %s raised %r" % (l, _lab(model.labels), exc)))
+                else:
+                    fails.extend(compare(where, r, exp, cls, prefix="%s-%s-" % (stage, nm)))
+        return fails
+
+    def _chain_step(self, st, op, verify):
+        """read label L, derive a second group from the same object, then read both again: what a label returns
+        depends on the group it is asked of now, never on what was read before."""
+        from menpo.shape import LabelledPointUndirectedGraph
+
+        g, model = st["g"], st["model"]
+        _, L, dkind, darg, _T = op
+        where = "chain-" + dkind
+        n = model.n
+        fails = self._reads(where, "first", g, model, [L])
+        saved = None
+        if dkind == "copy":
+            g2, model2 = g.copy(), model
+        elif dkind == "add-existing":
+            mask = tuple(i in darg for i in range(n))
+            g2 = g.add_label(L, list(darg))
+            model2 = Model(model.pts, model.edges, [(l, mask if l == L else m) for l, m in model.labels])
+        elif dkind == "add-new":
+            new = [x for x in NAMES if x not in model.names()][0]
+            g2 = g.add_label(new, list(darg))
+            model2 = Model(model.pts, model.edges, list(model.labels) + [(new, tuple(i in darg for i in range(n)))])
+        elif dkind == "remove":
+            g2 = g.remove_label(darg)
+            model2 = Model(model.pts, model.edges, [(l, m) for l, m in model.labels if l != darg])
+        elif dkind == "affine":
+            from menpo.transform import Affine
+
+            d = model.pts.shape[1]
+            r = rs(self.seed, "c15chain", d)
+            h = np.eye(d + 1)
+            h[:d, :d] = 1.2 * np.eye(d) + 0.5 * (r.rand(d, d) - 0.5)
+            h[:d, d] = 3 + 2 * r.rand(d)
+            g2 = Affine(h).apply(g)
+            want = model.pts.dot(h[:d, :d].T) + h[:d, d]
+            got = np.asarray(g2.points)
+            if got.shape != want.shape or not np.allclose(got, want, atol=1e-9, rtol=0):
+                fails.append(Failure(where, "derived-points", "transformed group has points %s, expected %s" % (got.tolist(), want.tolist())))
+                return fails if verify else []
+            model2 = Model(got.copy(), model.edges, model.labels)
+        elif dkind == "inplace":
+            saved = g.points.copy()
+            g.points[...] = saved * 1.5 + 0.25
+            g2, model2 = g, Model(saved * 1.5 + 0.25, model.edges, model.labels)
+        else:
+            raise HarnessError("unknown derivation %r" % (op,))
+        fails.extend(compare(where, g2, model2, LabelledPointUndirectedGraph, prefix="derived-"))
+        fails.extend(self._reads(where, "derived", g2, model2, model2.names()))
+        if saved is not None:
+            g.points[...] = saved
+        fails.extend(self._reads(where, "reread", g, model, [L]))
+        fails.extend(compare(where, g, model, LabelledPointUndirectedGraph, prefix="receiver-"))
+        self.note("chain:%s" % dkind)
+        return fails if verify else []
 
     def _graph_step(self, st, op, verify):
         from menpo.shape import LabelledPointUndirectedGraph, PointUndirectedGraph
@@ -844,6 +961,14 @@ class C15(Check):
             "mapping:labelled-graph",
             "via-labeller:ok",
             "hashseed:root-digests-identical",
+            "chain:copy",
+            "chain:add-existing",
+            "chain:add-new",
+            "chain:remove",
+            "chain:affine",
+            "chain:inplace",
+            "chain-read:derived-get",
+            "chain-read:reread-without",
         ]
         out = ["outcome %s never produced" % n for n in need if n and not notes.get(n)]
         if not any(k.startswith("with-perm:") for k in notes):
@@ -898,6 +1023,8 @@ class C15(Check):
             "labelled graphs with more than %d points or more than 3 initial labels (4-5 after add_label) are not built" % (3 if self.tier == "quick" else 4),
             "n = 4 (thorough): 1-2 label families x every edge set, 3-label families x the 9 stated edge sets (E4), depth 1; n <= 3: every edge set",
             "depth 2 (thorough) chains operations on all variant A roots with n <= 3; deeper chains are not explored",
+            "variant C (label names 'brow', 'eyebrow', 'eye': substrings of one another) is built for n <= 3 with the path edge set",
+            "read-derive-read chains (read a label, derive by copy / add_label / remove_label / affine apply / in-place point edit, read again): quick on the path roots of variants A and C, thorough on every variant A root with n <= 3 and the variant C roots; not repeated in the hash-seed sweep",
             "[interp] a permuted with_labels request must give the right content deterministically; its label order is not judged",
             "[interp] without_labels ignoring an unknown label, and any request that selects no point raising, are accepted",
             "add_label with an existing name: the mask is replaced in place, refused (ValueError) iff a point would be left without a label (D27, fixed)",
